@@ -35,7 +35,7 @@ Qed.
 Lemma h_idiv_I64 checked a b : in_i64 a -> in_i64 b -> b <> 0 ->
   h_idiv base_mode I64 checked a b = ORet (wrap64 (a / b)).
 Proof.
-  intros Ha Hb Hz. unfold h_idiv. unfold c_eq, c_lt.
+  intros Ha Hb Hz. unfold h_idiv, h_idiv_rest. unfold c_eq, c_lt.
   rewrite (c_cmp_I64_lit Z.eqb b (-1) Hb) by lia. rewrite c_truth_b.
   destruct (b =? -1) eqn:E1.
   - (* return 0U - (uint64_t)a *)
@@ -112,7 +112,7 @@ Qed.
 Lemma h_imod_I64 checked a b : in_i64 a -> in_i64 b -> b <> 0 ->
   h_imod base_mode I64 checked a b = ORet (a mod b).
 Proof.
-  intros Ha Hb Hz. unfold h_imod. unfold c_eq, c_lt, c_ne.
+  intros Ha Hb Hz. unfold h_imod, h_imod_rest. unfold c_eq, c_lt, c_ne.
   rewrite (c_cmp_I64_lit Z.eqb b (-1) Hb) by lia. rewrite c_truth_b.
   destruct (b =? -1) eqn:E1.
   - assert (b = -1) as -> by lia. unfold lit. rewrite ret_I64. f_equal.
